@@ -32,6 +32,13 @@ def skeletons(tier):
             if "N" not in w or (tier == "quick" and w.count("Y") + w.count("M") > 1):
                 continue
             out.append({"id": f"r1-{w}", "ranks": {"0": w}})
+    for w in ["CN", "NC"]:
+        out.append({"id": f"r1-{w}-stream0", "ranks": {"0": w}, "params": {"stream0": True}})
+    if tier == "quick":
+        # a long interval containing a short one and overlapping a later one (the shape in which a missing running
+        # maximum in the interval merge matters); the shape is assumed, the times inside it are free
+        for w in ["CNNN", "NCCC"]:
+            out.append({"id": f"r1-{w}-nested", "ranks": {"0": w}, "params": {"shape": "nested"}})
     if tier == "thorough":
         for w0 in ["N", "CN", "NN"]:
             for w1 in ["N", "CN", "NM"]:
@@ -48,7 +55,7 @@ def build(sk):
         for i, ch in enumerate(w):
             name, cat, cls = KCLASS[ch]
             ts, dur = f"$r{r}_k{i}_ts", f"$r{r}_k{i}_dur"
-            ev.append(TG.kernel(name, ts, dur, stream=7 + 13 * (i % 2), corr=100 + i, cat=cat))
+            ev.append(TG.kernel(name, ts, dur, stream=(0 if (sk.get('params', {}).get('stream0') and i == 0) else 7 + 13 * (i % 2)), corr=100 + i, cat=cat))
             ks.append((cls, ts, dur))
         ranks[int(r)] = ev
         kinfo[int(r)] = ks
@@ -64,6 +71,10 @@ def run(ctx):
         comp = [(ctx.val(ts), ctx.val(ts) + ctx.val(d)) for c, ts, d in ks if c == "COMPUTATION"]
         ivs[r] = (comm, comp)
         ctx.assume(union_len(comm) > 0)
+        if ctx.params.get("shape") == "nested":
+            same = [(ctx.val(ts), ctx.val(ts) + ctx.val(d)) for c, ts, d in ks][1:4]
+            (a0, a1), (b0, b1), (c0, c1) = same
+            ctx.assume(sand(a0 <= b0, b1 <= c0, c0 < a1, b0 <= b1))
     ta = ctx.open(events)
     res = ta.get_comm_comp_overlap(visualize=False)
     rk = ctx.cells(res["rank"])
